@@ -224,7 +224,7 @@ pub fn sync_op(kind: &str, slave: &str, opts: &[&str], ops: &[&str]) -> Option<(
         let f: Vec<&str> = op.split(' ').filter(|s| !s.is_empty()).collect();
         match f.first().copied() {
             Some("call") | Some("typed") => steps.push(peer_step(kind, op, &f[2..])?),
-            Some("slave") => {}
+            Some("slave") | Some("timeout") => {}
             _ => return None,
         }
     }
@@ -274,6 +274,18 @@ pub fn sync_op(kind: &str, slave: &str, opts: &[&str], ops: &[&str]) -> Option<(
             }
             ["slave", id, ..] => {
                 ctx.set_slave(Slave(p_u8(id)?));
+                None
+            }
+            ["timeout", v, ..] => {
+                // set_timeout / reset_timeout, read back through the getter
+                let want = if *v == "-" { None } else { Some(Duration::from_millis(v.parse().ok()?)) };
+                match want {
+                    None => ctx.reset_timeout(),
+                    Some(d) => ctx.set_timeout(d),
+                }
+                if ctx.timeout() != want {
+                    return Some((ops.join(" | "), "timeout getter disagrees with setter".into()));
+                }
                 None
             }
             _ => return None,
@@ -361,14 +373,28 @@ fn serial_server(svc: Vec<Svc>, data: &[u8], expect: usize) -> Option<String> {
     scripts.lock().unwrap().insert(key, svc.into_iter().collect());
     let service = LazyService { peer: key, scripts: scripts.clone(), calls: calls.clone() };
     let (ready_tx, ready_rx) = std::sync::mpsc::channel::<bool>();
+    // the public entry points, alternating: `serve_until` (stopped by its abort signal at the
+    // end) and `serve_forever` (its task is aborted at the end)
+    let until = data.len() % 2 == 0;
+    let (abort_tx, abort_rx) = tokio::sync::oneshot::channel::<()>();
     let server = runtime.spawn(async move {
         match tokio_serial::SerialStream::open(&tokio_serial::new(path, 115_200)) {
             Ok(serial) => {
                 let _ = ready_tx.send(true);
-                let _ = tokio_modbus::server::rtu::verif_process(serial, service).await;
+                let srv = tokio_modbus::server::rtu::Server::new(serial);
+                if until {
+                    let abort = Box::pin(async move {
+                        let _ = abort_rx.await;
+                    });
+                    matches!(srv.serve_until(service, abort).await, Ok(tokio_modbus::server::Terminated::Aborted))
+                } else {
+                    let _ = srv.serve_forever(service).await;
+                    false
+                }
             }
             Err(_) => {
                 let _ = ready_tx.send(false);
+                false
             }
         }
     });
@@ -402,10 +428,25 @@ fn serial_server(svc: Vec<Svc>, data: &[u8], expect: usize) -> Option<String> {
     if let Ok(n) = m.read(&mut buf) {
         got.extend(&buf[..n]);
     }
-    server.abort();
+    // `serve_until` must end as `Aborted` when its signal fires
+    let ended_ok = if until {
+        let _ = abort_tx.send(());
+        runtime.block_on(async { tokio::time::timeout(Duration::from_millis(3000), server).await })
+            .ok()
+            .and_then(Result::ok)
+            .unwrap_or(false)
+    } else {
+        server.abort();
+        true
+    };
     runtime.shutdown_timeout(Duration::from_millis(200));
     let c = calls.lock().unwrap().get(&key).cloned().unwrap_or_default();
-    Some(format!("calls={} out={} peer=ok", if c.is_empty() { "-".to_string() } else { c.join(",") }, hex(&got)))
+    Some(format!(
+        "calls={} out={} peer={}",
+        if c.is_empty() { "-".to_string() } else { c.join(",") },
+        hex(&got),
+        if ended_ok { "ok" } else { "bad" }
+    ))
 }
 
 /// `conc <kind> | svc=… r=d… | svc=… r=d… | …` – one part per concurrent connection
